@@ -81,6 +81,36 @@ theorem every_read_is_root_or_loaded_resolution_or_foreign (inp : Input) (fuel :
   | true => exact Or.inl rfl
   | false => exact Or.inr ((load_inv inp fuel).just h)
 
+/-! ### the caching reader (`URIMapCache`, hence `DefaultReadFromURI`) -/
+
+/-- The property is stated for the locations passed to `ReadFromURIFunc`.  When that function is
+`URIMapCache(reader)` the locations reaching the wrapped `reader` (files opened, HTTP requests sent) are a
+sub-sequence; it meets the spec whenever the full sequence does — for ANY sequence of reads, both switch settings. -/
+theorem cache_preserves_spec (inp : Input) (log : List Url) (h : Spec inp log) :
+    Spec inp (cacheFilter inp [] log) := by
+  unfold Spec at h ⊢
+  split
+  · next ha =>
+    rw [if_pos ha] at h
+    intro pre u post heq
+    have := cacheFilter_just inp log [] [] [] (by simp) (by simp)
+      (by intro s u t e; simpa using h s u t e) pre u post heq
+    simpa using this
+  · next ha =>
+    rw [if_neg ha] at h
+    intro u hu
+    exact h u (cacheFilter_sub inp log [] u hu)
+
+/-- With the switch off, nothing but the root reaches the wrapped reader either. -/
+theorem switch_off_cached_reads_root_only (inp : Input) (fuel : Nat) (hoff : inp.allowed = false) :
+    ∀ u ∈ cacheFilter inp [] (load inp fuel).1.log, some u = inp.root :=
+  fun u hu => switch_off_reads_root_only inp fuel hoff u (cacheFilter_sub inp _ [] u hu)
+
+/-- the wrapped reader sees only resolutions too (outside the exclusion) -/
+theorem switch_on_cached_reads_are_resolutions_partial (inp : Input) (fuel : Nat) (h : ¬ ForeignBase inp fuel) :
+    Spec inp (cacheFilter inp [] (load inp fuel).1.log) :=
+  cache_preserves_spec inp _ (reads_meet_spec_partial inp fuel h)
+
 /-! ### the executable spec is the spec -/
 
 theorem justifiedB_iff (inp : Input) (pre : List Url) (u : Url) :
@@ -275,6 +305,10 @@ example : (load { x1 with allowed := false } 16).1.log = [fileUrl ["r", "a", "ro
 /-- the raw re-read of the current document (dangling '#'-reference) with the switch off: the root is read twice -/
 example : (load { x1 with allowed := false, rootFile := { x1.rootFile with tops := [ .mk 1 .schema (some (hashRef "/components/schemas/Nope")) [] ] } } 16).1.log
     = [fileUrl ["r", "a", "root.json"], fileUrl ["r", "a", "root.json"]] := by decide
+
+/-- non-vacuity: an absolute location read twice reaches the wrapped reader once, a relative file path every time -/
+example : cacheFilter x1 [] [fileUrl ["r", "a", "root.json"], fileUrl ["r", "a", "root.json"], ⟨"", "", false, ["rel.json"]⟩, ⟨"", "", false, ["rel.json"]⟩]
+    = [fileUrl ["r", "a", "root.json"], ⟨"", "", false, ["rel.json"]⟩, ⟨"", "", false, ["rel.json"]⟩] := by decide
 
 /-- path algebra: "../b/p.json" against /r/a/root.json -/
 example : resolvePath (some (fileUrl ["r", "a", "root.json"])) ⟨"", "", false, ["..", "b", "p.json"]⟩
